@@ -28,6 +28,41 @@ pub enum Answer {
     Ok,
     /// never answer opens
     Mute,
+    /// SYNACK, then every later data frame of a stream is sent back on it (an echoing origin)
+    Echo,
+}
+
+/// A dialled in-memory transport whose writes can be made to fail from a given call on (a broken connection).
+pub struct FaultIo {
+    inner: tokio::io::DuplexStream,
+    calls: Arc<std::sync::atomic::AtomicUsize>,
+    fail_from: Arc<std::sync::atomic::AtomicUsize>,
+}
+
+impl tokio::io::AsyncRead for FaultIo {
+    fn poll_read(mut self: std::pin::Pin<&mut Self>, cx: &mut std::task::Context<'_>, buf: &mut tokio::io::ReadBuf<'_>) -> std::task::Poll<std::io::Result<()>> {
+        std::pin::Pin::new(&mut self.inner).poll_read(cx, buf)
+    }
+}
+
+impl tokio::io::AsyncWrite for FaultIo {
+    fn poll_write(mut self: std::pin::Pin<&mut Self>, cx: &mut std::task::Context<'_>, buf: &[u8]) -> std::task::Poll<std::io::Result<usize>> {
+        use std::sync::atomic::Ordering::SeqCst;
+        if self.calls.load(SeqCst) >= self.fail_from.load(SeqCst) {
+            return std::task::Poll::Ready(Err(std::io::Error::new(std::io::ErrorKind::BrokenPipe, "broken pipe (scripted)")));
+        }
+        let r = std::pin::Pin::new(&mut self.inner).poll_write(cx, buf);
+        if r.is_ready() {
+            self.calls.fetch_add(1, SeqCst);
+        }
+        r
+    }
+    fn poll_flush(mut self: std::pin::Pin<&mut Self>, cx: &mut std::task::Context<'_>) -> std::task::Poll<std::io::Result<()>> {
+        std::pin::Pin::new(&mut self.inner).poll_flush(cx)
+    }
+    fn poll_shutdown(mut self: std::pin::Pin<&mut Self>, cx: &mut std::task::Context<'_>) -> std::task::Poll<std::io::Result<()>> {
+        std::pin::Pin::new(&mut self.inner).poll_shutdown(cx)
+    }
 }
 
 /// Requests to this port are answered with a failure verdict (the session itself stays healthy).
@@ -42,6 +77,9 @@ pub struct CWorld {
     pub refuse_dials: Arc<std::sync::atomic::AtomicUsize>,
     /// the next n dialled connections are dropped by the server before the TLS handshake
     pub drop_before_handshake: Arc<std::sync::atomic::AtomicUsize>,
+    /// transport write calls of the client (all connections together) from this index on fail (usize::MAX: never)
+    pub fail_writes_from: Arc<std::sync::atomic::AtomicUsize>,
+    pub write_calls: Arc<std::sync::atomic::AtomicUsize>,
     old: Option<anytls_rs::verif::Dialer>,
 }
 
@@ -71,6 +109,9 @@ impl CWorld {
         let refuse_dials = Arc::new(std::sync::atomic::AtomicUsize::new(0));
         let drop_before_handshake = Arc::new(std::sync::atomic::AtomicUsize::new(0));
         let (rd, dh) = (refuse_dials.clone(), drop_before_handshake.clone());
+        let fail_writes_from = Arc::new(std::sync::atomic::AtomicUsize::new(usize::MAX));
+        let write_calls = Arc::new(std::sync::atomic::AtomicUsize::new(0));
+        let (fw, wc) = (fail_writes_from.clone(), write_calls.clone());
         let dialer: anytls_rs::verif::Dialer = Rc::new(move |_addr: &str| {
             use std::sync::atomic::Ordering::SeqCst;
             if rd.load(SeqCst) > 0 {
@@ -99,11 +140,11 @@ impl CWorld {
                     _ = serve(b, log, answer, push) => {}
                 }
             });
-            Some(Ok(Box::new(a) as Box<dyn anytls_rs::verif::VerifIo>))
+            Some(Ok(Box::new(FaultIo { inner: a, calls: wc.clone(), fail_from: fw.clone() }) as Box<dyn anytls_rs::verif::VerifIo>))
         });
         let old = anytls_rs::verif::install_dialer(Some(dialer));
         let client = Arc::new(Client::with_pool_config("pw", "in-memory:1".to_string(), ServerName::try_from("localhost").unwrap(), connector(), padding, pool));
-        CWorld { client, conns, kills, refuse_dials, drop_before_handshake, old }
+        CWorld { client, conns, kills, refuse_dials, drop_before_handshake, fail_writes_from, write_calls, old }
     }
 
     /// The server drops connection `i` (abruptly, as seen from the client: end of the transport).
@@ -174,12 +215,15 @@ async fn serve(io: tokio::io::DuplexStream, log: Arc<Mutex<ConnLog>>, answer: An
                 }
                 PSH if !answered.contains(&f.id) => {
                     answered.push(f.id);
-                    if answer == Answer::Ok {
+                    if answer == Answer::Ok || answer == Answer::Echo {
                         // destinations with port 9 are "refused by the target": the verdict carries a reason
                         let refused = f.data.len() >= 2 && f.data[f.data.len() - 2..] == REFUSED_PORT.to_be_bytes();
                         let reason: &[u8] = if refused { b"connect to target failed: connection refused" } else { b"" };
                         let _ = s.write_all(&enc(SYNACK, f.id, reason)).await;
                     }
+                }
+                PSH if answer == Answer::Echo => {
+                    let _ = s.write_all(&enc(PSH, f.id, &f.data)).await;
                 }
                 HEART_REQ => {
                     let _ = s.write_all(&enc(HEART_RESP, f.id, b"")).await;
@@ -197,4 +241,196 @@ pub fn pool(check_ms: u64, idle_ms: u64, min_idle: usize) -> SessionPoolConfig {
 
 pub fn quiet_pool(min_idle: usize) -> SessionPoolConfig {
     SessionPoolConfig { check_interval: Duration::from_secs(36000), idle_timeout: Duration::from_secs(36000), min_idle_sessions: min_idle }
+}
+
+
+/// Front-end under upstream FAULTS: the real SOCKS5 / HTTP front-end on a loopback listener, the real Client over the
+/// in-memory dialer seam, an echoing scripted origin — and the client's transport broken from write call #k on, for
+/// every k (the fault lands in the TLS handshake, the authentication, the first flush, the early bytes, the relay...).
+/// Whatever the failure point, the local application receives either a failure answer alone, or a success answer
+/// followed ONLY by bytes the origin sent (a prefix of the echo) — never a second answer or an error text inside an
+/// established tunnel / behind response bytes.
+pub fn front_end_fault_pass(rep: &mut crate::report::Report, prop: &str, front: &'static str, mode: &'static str) {
+    use tokio::net::TcpStream;
+    let rt = tokio::runtime::Builder::new_current_thread().enable_all().build().unwrap();
+    let early: &[u8] = b"EARLY-0123456789-early-bytes";
+    let res: Vec<(String, Option<(String, String)>)> = rt.block_on(async {
+        let mut out = vec![];
+        let mut total_calls = usize::MAX;
+        let mut k = 0usize;
+        while k <= total_calls.min(60) {
+            let fail_from = if k == total_calls.min(60) { usize::MAX } else { k };
+            let name = format!("{front} {mode}: client transport broken from write call #{}", if fail_from == usize::MAX { "never (control)".to_string() } else { fail_from.to_string() });
+            let w = CWorld::start(crate::sess::padding(crate::sess::STOP0), quiet_pool(1), Answer::Echo);
+            w.fail_writes_from.store(fail_from, std::sync::atomic::Ordering::SeqCst);
+            let Ok(probe) = std::net::TcpListener::bind("127.0.0.1:0") else { break };
+            let addr = probe.local_addr().unwrap();
+            drop(probe);
+            let c = w.client.clone();
+            let server = tokio::spawn(async move {
+                if front == "socks5" {
+                    let _ = anytls_rs::client::start_socks5_server(&addr.to_string(), c).await;
+                } else {
+                    let _ = anytls_rs::client::start_http_proxy_server(&addr.to_string(), c).await;
+                }
+            });
+            tokio::time::sleep(Duration::from_millis(20)).await;
+            let verdict: Option<(String, String)> = async {
+                let Ok(mut s) = TcpStream::connect(addr).await else { return Some(("harness".to_string(), "cannot connect to the front-end".to_string())) };
+                let _ = s.set_nodelay(true);
+                let mut got: Vec<u8> = vec![];
+                let mut tmp = [0u8; 4096];
+                if front == "socks5" {
+                    let _ = s.write_all(&[5, 1, 0]).await;
+                    let mut m = [0u8; 2];
+                    if tokio::time::timeout(Duration::from_secs(3), s.read_exact(&mut m)).await.map(|r| r.is_err()).unwrap_or(true) || m != [5, 0] {
+                        return Some(("harness".to_string(), format!("method reply {:?}", m)));
+                    }
+                    let mut req = vec![5u8, 1, 0, 3, 11];
+                    req.extend_from_slice(b"example.com");
+                    req.extend_from_slice(&80u16.to_be_bytes());
+                    req.extend_from_slice(early);
+                    let _ = s.write_all(&req).await;
+                } else if mode == "CONNECT" {
+                    let mut req = b"CONNECT example.com:80 HTTP/1.1\r\nHost: example.com:80\r\n\r\n".to_vec();
+                    req.extend_from_slice(early);
+                    let _ = s.write_all(&req).await;
+                } else {
+                    let mut req = b"POST http://example.com/x HTTP/1.1\r\nHost: example.com\r\nContent-Length: 28\r\n\r\n".to_vec();
+                    req.extend_from_slice(early);
+                    let _ = s.write_all(&req).await;
+                }
+                // everything the application receives until the connection ends or stays quiet for 600 ms
+                loop {
+                    match tokio::time::timeout(Duration::from_millis(300), s.read(&mut tmp)).await {
+                        Ok(Ok(0)) | Ok(Err(_)) | Err(_) => break,
+                        Ok(Ok(n)) => got.extend_from_slice(&tmp[..n]),
+                    }
+                }
+                let text = String::from_utf8_lossy(&got).to_string();
+                if front == "socks5" {
+                    if got.is_empty() {
+                        return None; // closed without a reply: a failure
+                    }
+                    if got.len() < 10 || got[0] != 5 {
+                        return Some(("malformed-reply".to_string(), format!("reply bytes {:02x?}", &got[..got.len().min(16)])));
+                    }
+                    let rest = &got[10..];
+                    if got[1] == 0 {
+                        if !early.starts_with(rest) {
+                            return Some(("bytes-the-target-never-sent".to_string(), format!("after the success reply the application received {:?}; the target only echoes {:?}", String::from_utf8_lossy(rest), String::from_utf8_lossy(early))));
+                        }
+                    } else if !rest.is_empty() {
+                        return Some(("more-than-one-reply".to_string(), format!("after the failure reply {:02x?} the application received {} more bytes: {:02x?}", &got[..10], rest.len(), &rest[..rest.len().min(16)])));
+                    }
+                    None
+                } else if mode == "CONNECT" {
+                    let Some(pos) = text.find("\r\n\r\n") else {
+                        return if got.is_empty() { None } else { Some(("malformed-reply".to_string(), format!("{:?}", text))) };
+                    };
+                    let (head, rest) = (&text[..pos], &got[pos + 4..]);
+                    if head.starts_with("HTTP/1.1 200") {
+                        if !early.starts_with(rest) {
+                            return Some(("bytes-the-origin-never-sent".to_string(), format!("after '200' the application received {:?} inside the tunnel; the origin only echoes {:?}", String::from_utf8_lossy(rest), String::from_utf8_lossy(early))));
+                        }
+                    } else if String::from_utf8_lossy(rest).contains("HTTP/1.") {
+                        return Some(("more-than-one-reply".to_string(), format!("{:?}", text)));
+                    }
+                    None
+                } else {
+                    // forwarded request: the origin echoes the forwarded request; an error answer is only possible
+                    // before any response byte
+                    if text.starts_with("POST ") && (text.contains("HTTP/1.1 5") || text.contains("Bad Gateway")) {
+                        return Some(("bytes-the-origin-never-sent".to_string(), format!("an error text follows response bytes: {:?}", crate::report::truncate(&text, 300))));
+                    }
+                    if text.starts_with("HTTP/1.1 5") && text.contains("POST ") {
+                        return Some(("more-than-one-reply".to_string(), format!("response bytes follow an error answer: {:?}", crate::report::truncate(&text, 300))));
+                    }
+                    None
+                }
+            }
+            .await;
+            if fail_from == usize::MAX {
+                // the control run tells how many transport write calls a whole exchange takes
+                if total_calls == usize::MAX {
+                    total_calls = w.write_calls.load(std::sync::atomic::Ordering::SeqCst);
+                }
+            }
+            server.abort();
+            w.client.stop_session_pool_cleanup().await;
+            drop(w);
+            out.push((name, verdict));
+            if total_calls == usize::MAX {
+                // first iteration is the control run (k = 0 with no fault): restart the sweep
+                out.pop();
+                let w2 = CWorld::start(crate::sess::padding(crate::sess::STOP0), quiet_pool(1), Answer::Echo);
+                drop(w2);
+                total_calls = 0;
+                // measure with a faultless run
+                let w = CWorld::start(crate::sess::padding(crate::sess::STOP0), quiet_pool(1), Answer::Echo);
+                let Ok(probe) = std::net::TcpListener::bind("127.0.0.1:0") else { break };
+                let addr = probe.local_addr().unwrap();
+                drop(probe);
+                let c = w.client.clone();
+                let server = tokio::spawn(async move {
+                    if front == "socks5" {
+                        let _ = anytls_rs::client::start_socks5_server(&addr.to_string(), c).await;
+                    } else {
+                        let _ = anytls_rs::client::start_http_proxy_server(&addr.to_string(), c).await;
+                    }
+                });
+                tokio::time::sleep(Duration::from_millis(20)).await;
+                if let Ok(mut s) = TcpStream::connect(addr).await {
+                    if front == "socks5" {
+                        let _ = s.write_all(&[5, 1, 0]).await;
+                        let mut m = [0u8; 2];
+                        let _ = tokio::time::timeout(Duration::from_secs(3), s.read_exact(&mut m)).await;
+                        let mut req = vec![5u8, 1, 0, 3, 11];
+                        req.extend_from_slice(b"example.com");
+                        req.extend_from_slice(&80u16.to_be_bytes());
+                        req.extend_from_slice(early);
+                        let _ = s.write_all(&req).await;
+                    } else if mode == "CONNECT" {
+                        let mut req = b"CONNECT example.com:80 HTTP/1.1\r\nHost: example.com:80\r\n\r\n".to_vec();
+                        req.extend_from_slice(early);
+                        let _ = s.write_all(&req).await;
+                    } else {
+                        let mut req = b"POST http://example.com/x HTTP/1.1\r\nHost: example.com\r\nContent-Length: 28\r\n\r\n".to_vec();
+                        req.extend_from_slice(early);
+                        let _ = s.write_all(&req).await;
+                    }
+                    let mut tmp = [0u8; 4096];
+                    loop {
+                        match tokio::time::timeout(Duration::from_millis(300), s.read(&mut tmp)).await {
+                            Ok(Ok(0)) | Ok(Err(_)) | Err(_) => break,
+                            Ok(Ok(_)) => {}
+                        }
+                    }
+                }
+                total_calls = w.write_calls.load(std::sync::atomic::Ordering::SeqCst) + 2;
+                server.abort();
+                w.client.stop_session_pool_cleanup().await;
+                drop(w);
+                k = 0;
+                continue;
+            }
+            k += 1;
+        }
+        out
+    });
+    let mut n = 0;
+    for (name, v) in res {
+        n += 1;
+        rep.case(Some(&name));
+        if let Some((clause, detail)) = v {
+            if clause == "harness" {
+                rep.machinery(format!("{name}: {detail}"));
+            } else {
+                rep.violation(&format!("{prop}:upstream-fault:{clause}"), &format!("{name}: {detail}"), serde_json::json!({"engine": "LX-fault", "case": name}));
+            }
+        }
+    }
+    if n < 5 {
+        rep.machinery(format!("front-end fault pass ({front} {mode}) ran only {n} cases"));
+    }
 }
